@@ -120,4 +120,34 @@ def Builder.pushAll (b : Builder) : List (Bytes Ã— Bytes Ã— Bytes) â†’ Builder Ã
 /-- the initialised part handed to `sendmsg` / iterated afterwards -/
 def Builder.finish (b : Builder) : Bytes := b.bytes.take b.len
 
+/-! ### builder with payload encoders that may fail (`AncillaryData::encode` returning `Err`) -/
+
+inductive PushOutcome where
+  | ok
+  | small
+  | refused
+  deriving Repr, DecidableEq
+
+/-- `AncillaryBuilder::push(level, ty, value)` for a payload type whose `AncillaryData::encode` may
+fail (`refuse`). Order of the code: `is_space_enough` first (`BufferTooSmall`); then level, type and
+`cmsg_len` are written into the slot and the encoder runs; its `Err` leaves through `?` *before*
+`buffer.advance(..)` and `inner.next(..)`, so neither the length nor the cursor moves.
+The 16 header bytes a refused push has written lie beyond `buf_len`, are not part of the finished
+buffer and are overwritten completely by the next accepted push (same offset, full header); the
+model keeps them zero. -/
+def Builder.pushR (b : Builder) (refuse : Bool) (level ty data : Bytes) : Builder Ã— PushOutcome :=
+  match b.offset with
+  | none => (b, .small)
+  | some off =>
+    if off + space data.length â‰¤ b.cap then
+      if refuse then (b, .refused) else ((b.push level ty data).1, .ok)
+    else (b, .small)
+
+def Builder.pushAllR (b : Builder) : List (Bool Ã— Bytes Ã— Bytes Ã— Bytes) â†’ Builder Ã— List PushOutcome
+  | [] => (b, [])
+  | (rf, l, t, d) :: rest =>
+    let (b', r) := b.pushR rf l t d
+    let (b'', rs) := b'.pushAllR rest
+    (b'', r :: rs)
+
 end Compio.Cmsg
